@@ -259,11 +259,11 @@ func genOpScenario(r *rand.Rand, op string, small bool) *Scenario {
 			sc.LocalVal = randVal(r)
 		}
 		for i := range sc.Scripts {
-			sc.Scripts[i].PutEcho = pick(r, "", "", "", "other", "fail")
+			sc.Scripts[i].PutEcho = pick(r, "", "", "", "other", "fail", "hang")
 		}
 	case "provide":
 		for i := range sc.Scripts {
-			sc.Scripts[i].AddProv = pick(r, "", "", "fail")
+			sc.Scripts[i].AddProv = pick(r, "", "", "fail", "hang")
 		}
 		sc.Timeout = []int{0, 0, 5, 40, 300}[r.Intn(5)]
 		sc.NAddrs = []int{1, 1, 3, 4}[r.Intn(4)]
